@@ -82,7 +82,7 @@ def gen_op(rng, w, live):
     i = rng.choice(sorted(live))
     if k < 0.2:
         return ('clone', i, rng.randrange(nslots))
-    if k < 0.62:
+    if k < 0.57:
         pol = rng.choice(POLICIES)
         doc = rng.choice(['none', 'none', 'match', 'match', 'flip', 'otheralg'])
         lvl = rng.choice([0, 0, 0, 2, 9, 10, 255, 256])
@@ -90,6 +90,9 @@ def gen_op(rng, w, live):
         ext = rng.choice([0, 1])
         beh = rng.choice(['honest', 'honest', 'error', 'other-root'])
         return ('verify', i, pol, doc, lvl, pub, ext, beh)
+    if k < 0.595:
+        # KSI_SignatureVerifier_verify through that same kept context; signature, document hash and level are left in it afterwards
+        return ('verify_vc', i, rng.choice(['internal', 'internal', 'general', 'key']), rng.choice(['none', 'match', 'match', 'flip', 'otheralg']), rng.choice([0, 0, 2, 9]))
     if k < 0.63:
         # KSI_Signature_verifyWithPolicy through ONE caller-owned verification context that is kept for the whole history
         return ('verify_wp', i, rng.choice(['internal', 'internal', 'general', 'key']), rng.choice(['none', 'none', 'match', 'flip', 'otheralg']), rng.choice([0, 0, 2, 9]))
@@ -218,6 +221,24 @@ class Hist:
                 self.viol('verdict-differs-from-fresh-context:verifyWithPolicy-kept-context', 'KSI_Signature_verifyWithPolicy through the caller context kept since the start of the history gives rc=%#x, with fresh contexts rc=%#x (%s)' % (q.rc, q2.rc, base[:80]))
             if q.get('vcdirty'):
                 self.r.count('caller_context_modified')
+            if q.get('stalesig'):
+                self.r.count('kept_context_held_another_signature')
+            if q.get('staledoc'):
+                self.r.count('kept_context_held_another_document_hash')
+        elif kind == 'verify_vc':
+            _, slot, pol, doc, lvl = op
+            raw, si = self.live[slot]
+            base = self.verify_cmd(slot, si, pol, doc, lvl, 'none', 0)
+            q = c(base + ' api=verifier uservc=1')
+            c('ctx 1')
+            c('set_ext 1 ksi+http://e.example/x anon anon')
+            c('sigparse 1 9 empty ' + raw.hex())
+            q2 = c(self.verify_cmd(9, si, pol, doc, lvl, 'none', 0, ctxn=1) + ' api=verifier uservc=1')
+            c('sigfree 9')
+            c('ctxfree 1')
+            self.r.count('verifications_through_kept_caller_context')
+            if (q.rc, q.get('res'), q.get('err')) != (q2.rc, q2.get('res'), q2.get('err')):
+                self.viol('verdict-differs-from-fresh-context:verifier-kept-context', 'KSI_SignatureVerifier_verify through the caller context kept since the start of the history gives %s, with fresh contexts %s (%s)' % ((q.rc, q.get('res'), q.get('err')), (q2.rc, q2.get('res'), q2.get('err')), base[:80]))
         elif kind == 'serialize':
             pass
         elif kind == 'extend':
